@@ -548,6 +548,32 @@ def _constant_value(expr: Expression) -> float | None:
     return None
 
 
+def _is_plain_node(expr: Expression) -> bool:
+    """True for the node kinds the LP walkers handle structurally."""
+    return isinstance(expr, (Constant, Variable, BinaryOp, UnaryOp))
+
+
+def _origin(expr: Expression) -> dict[str, float]:
+    return {v.name: 0.0 for v in expr.get_variables()}
+
+
+def _linear_node_coefficient(expr: Expression, var: Variable) -> float:
+    """Coefficient of ``var`` in a linear node the walkers do not know structurally.
+
+    Degree analysis classifies e.g. ``x.dot(constant vector expression)`` or
+    ``(x**1).sum()`` as linear; such a node contributes its (constant) partial
+    derivative instead of being dropped.
+    """
+    from optyx.core.autodiff import gradient
+
+    return float(np.asarray(gradient(expr, var).evaluate(_origin(expr))))
+
+
+def _linear_node_constant(expr: Expression) -> float:
+    """Constant term of a linear node the walkers do not know: its value at the origin."""
+    return float(np.asarray(expr.evaluate(_origin(expr))))
+
+
 def _extract_coefficient_impl(expr: Expression, var: Variable) -> float:
     """Recursive coefficient extraction."""
     from optyx.core.vectors import LinearCombination, VectorSum
@@ -641,7 +667,8 @@ def _extract_coefficient_impl(expr: Expression, var: Variable) -> float:
             return -_extract_coefficient_impl(expr.operand, var)
         return 0.0
 
-    return 0.0
+    # Other linear node kinds (DotProduct with a constant side, (x**1).sum(), ...)
+    return _linear_node_coefficient(expr, var)
 
 
 def extract_constant_term(expr: Expression) -> float:
@@ -743,6 +770,9 @@ def _extract_constant_impl(expr: Expression) -> float:
             return -_extract_constant_impl(expr.operand)
         return 0.0
 
+    if not _is_plain_node(expr):
+        # Other linear node kinds: the constant term is the value at the origin
+        return _linear_node_constant(expr)
     return 0.0
 
 
@@ -1012,6 +1042,13 @@ def _extract_all_coefficients_impl(
         if expr.op == "neg":
             _extract_all_coefficients_impl(expr.operand, var_index, result, -multiplier)
         return
+
+    # Other linear node kinds (DotProduct with a constant side, (x**1).sum(), ...):
+    # each variable contributes its constant partial derivative
+    for var in expr.get_variables():
+        idx = var_index.get(var.name)
+        if idx is not None:
+            result[idx] += multiplier * _linear_node_coefficient(expr, var)
 
 
 class LinearProgramExtractor:
